@@ -152,7 +152,7 @@ SPECS = {
         "level": "exploration",
         "derive": _c07_derive,
         "parts": _c07_parts,
-        "rule": "case = (2-3 tasks drawn from a stratum, schedule); distinct = stratum x blake2b of the schedule projected on "
+        "rule": "case = (2-3 tasks drawn from a stratum - clean / provide / lru / media / mixed / extends / view -, schedule); distinct = stratum x blake2b of the schedule projected on "
                 "shared-state accesses (sequence of (thread, file:line) at which ownership of shared state changed hands); "
                 "non-trivial = at least one pre-emption happened and both threads touched shared state",
         "real_vs_stub": {"real": RENDER_REAL["real"] + ["real threading.Thread objects executing the real library code"],
@@ -313,9 +313,11 @@ MANIFEST_META = {
     "C07": {
         "engine": "thread-sim", "design_ref": "DESIGN.md 4/C07, 3.6",
         "technique": "deterministic simulation of threads: baton-passing real threads, sys.settrace line events in library files as "
-                     "pre-emption points, seeded pre-materialised schedules (memoryless / PCT / targeted at shared-state lines), "
+                     "pre-emption points, seeded pre-materialised schedules (memoryless / PCT / targeted at shared-state lines) plus a "
+                     "systematic sweep of the bounded schedule space (1 and 2 pre-emptions at shared-state lines) of seeded task sets, "
                      "solo-vs-scheduled oracle, shrinking of the schedule to a replay file",
-        "level_text": "Seeded exploration of interleavings of 2-3 render / compile / first-access tasks at line granularity; each "
+        "level_text": "Seeded exploration of interleavings of 2-3 render / compile / first-access / view-request tasks at line granularity "
+                      "(random strategies, plus depth-1 complete and depth-2 per-focus-group enumeration for seeded two-task sets); each "
                       "thread must return its solo result and the shared caches / registries must end as the solo runs leave them.",
         "level_note": "Trusted: line granularity (no intra-line or Django-internal switches); locks created by the library become "
                       "scheduler-aware SimLocks through the module's `threading` attribute; solo run as the specification.",
